@@ -234,7 +234,7 @@ func (g *surfGen) stmtLike() string {
 }
 
 func (g *surfGen) form() string {
-	switch rapid.IntRange(0, 22).Draw(g.t, "form") {
+	switch rapid.IntRange(0, 24).Draw(g.t, "form") {
 	case 0:
 		g.labels["struct"] = true
 		n := g.name("T")
@@ -327,6 +327,34 @@ func (g *surfGen) form() string {
 			"(for lp: [(def i 0) (< i 3) (def i (+ i 1))] (newScope (let [q i] (and (== q 1) true (break lp:)))) (trace i))",
 			"(for [(def i 0) (< i 3) (def i (+ i 1))] (cond (let [q i] (and (== q 1) (continue))) 1 2) (trace i))",
 		}).Draw(g.t, "loop")
+	case 23:
+		// control transfers written inside a macro expansion, the macro called under extra scopes
+		g.labels["jump-or-tail-call-from-macro-expansion"] = true
+		n := g.name("mj")
+		switch rapid.IntRange(0, 4).Draw(g.t, "mjshape") {
+		case 0:
+			return fmt.Sprintf("(defmac %s [c] ^(cond ~c (break) nil))\n(for [(def i 0) (< i 5) (def i (+ i 1))] (let [j (* i 2)] (%s (> j 4))) (trace i))", n, n)
+		case 1:
+			return fmt.Sprintf("(defmac %s [c] ^(cond ~c (continue) nil))\n(for [(def i 0) (< i 3) (def i (+ i 1))] (newScope (def z i) (%s (== z 0)) (trace z)))", n, n)
+		case 2:
+			return fmt.Sprintf("(defmac %s [c] ^(and ~c (continue outer:)))\n(for outer: [(def i 0) (< i 2) (def i (+ i 1))] (range k v shash (letseq [q i] (%s (== q 0))) (trace k)))", n, n)
+		case 3:
+			return fmt.Sprintf("(defmac %s [f n] ^(~f (- ~n 1)))\n(defn f%s [n] (let [m n] (newScope (cond (<= m 0) 0 (%s f%s m)))))\n(trace (f%s 4))", n, n, n, n, n)
+		}
+		return fmt.Sprintf("(defmac %s [c] ^(cond ~c (break lp:) nil))\n(defn f%s [x] (for lp: [(def i 0) (< i 5) (def i (+ i 1))] (let [j (* i 2)] (letseq [k j] (%s (> k 4))))) x)\n(trace (f%s 7))", n, n, n, n)
+	case 24:
+		// control transfers out of / inside a package body; declarations without a body; splice at top level
+		g.labels["package-body-jump-or-bodiless-func"] = true
+		n := g.name("pj")
+		switch rapid.IntRange(0, 3).Draw(g.t, "pjshape") {
+		case 0:
+			return fmt.Sprintf("(for [(def i 0) (< i 3) (def i (+ i 1))] (package %q (def A i) (cond (== i 1) (break) nil)) (trace i))", n)
+		case 1:
+			return fmt.Sprintf("(for [(def i 0) (< i 3) (def i (+ i 1))] (package %q (def A i) (cond (== i 1) (continue) nil)) (trace i))", n)
+		case 2:
+			return fmt.Sprintf("(defn f%s [n] (package %q (def A n) (cond (<= n 0) 0 (f%s (- n 1)))))\n(f%s 3)\n(trace 1)", n, n, n, n)
+		}
+		return fmt.Sprintf("(func f%s [] [a:int64 b:int64])\n(f%s)\n(trace 2)", n, n)
 	case 15:
 		g.labels["tail-call"] = true
 		n := g.name("tc")
